@@ -139,12 +139,106 @@ static std::string kfcs(Toks& t) {
     return o.str();
 }
 
+// Time-varying linear models: F, Q (and the exogenous law) resp. H, R may change between calls.
+struct VState : public LinearStateModel {
+    explicit VState(long n) : n_(n) {}
+    MatrixXd getStateTransitionMatrix() override { return F_; }
+    MatrixXd getNoiseCovarianceMatrix() override { return Q_; }
+    bool setProperty(const std::string&) override { return false; }
+    VectorDescription getStateDescription() override { return VectorDescription(n_); }
+    long n_; MatrixXd F_, Q_;
+};
+struct VExo : public ExogenousModel {
+    void propagate(const Ref<const MatrixXd>& cur, Ref<MatrixXd> prop) override { prop = (G_ * cur).colwise() + g_; }
+    bool setProperty(const std::string&) override { return false; }
+    VectorDescription getStateDescription() const override { return VectorDescription(g_.size()); }
+    MatrixXd G_; VectorXd g_;
+};
+struct VMeas : public LinearMeasurementModel {
+    bool freeze(const Data&) override { return true; }
+    std::pair<bool, Data> measure(const Data&) const override { MatrixXd y = y_; return std::make_pair(true, Data(y)); }
+    std::pair<bool, MatrixXd> getNoiseCovarianceMatrix() const override { return std::make_pair(true, R_); }
+    MatrixXd getMeasurementMatrix() const override { return H_; }
+    VectorDescription getInputDescription() const override { return VectorDescription(H_.cols(), 0, R_.rows()); }
+    VectorDescription getMeasurementDescription() const override { return VectorDescription(H_.rows()); }
+    MatrixXd H_, R_; VectorXd y_;
+};
+
+// One KFPrediction over a time-varying model; before each predict() a history of skip commands that
+// ends with everything switched off again:
+//   kfpv n exo ncalls { F Q [G g] nskip {name status}* k means covs outw }*      name: 0 prediction 1 state 2 exogenous
+static std::string kfpv(Toks& t) {
+    long n = t.nat(); bool exo = t.flag();
+    VState* vs = new VState(n); VExo* ve = nullptr;
+    std::unique_ptr<LinearStateModel> sm(vs);
+    if (exo) { ve = new VExo; ve->G_ = MatrixXd::Zero(n, n); ve->g_ = VectorXd::Zero(n); vs->add_exogenous_model(std::unique_ptr<ExogenousModel>(ve)); }
+    KFPrediction p(std::move(sm));
+    long calls = t.nat();
+    Out o; o.s("ok");
+    static const char* names[3] = {"prediction", "state", "exogenous"};
+    for (long c = 0; c < calls; ++c) {
+        vs->F_ = t.mat(n, n); vs->Q_ = t.mat(n, n);
+        if (exo) { ve->G_ = t.mat(n, n); ve->g_ = t.vec(n); }
+        long nskip = t.nat();
+        for (long q = 0; q < nskip; ++q) { long nm = t.nat(); bool st = t.flag(); if (nm < 0 || nm > 2) throw vh::BadArgs("skipname"); p.skip(names[nm], st); }
+        long k = t.nat();
+        GaussianMixture prev(k, n), pred(k, n);
+        fillGM(t, prev, n, k);
+        pred.weight() = t.vec(k);
+        pred.mean().setConstant(12345.0); pred.covariance().setConstant(-54321.0);
+        MatrixXd m0 = prev.mean(), c0 = prev.covariance(), w0 = prev.weight();
+        p.predict(prev, pred);
+        bool same = vh::same_bits(m0, prev.mean()) && vh::same_bits(c0, prev.covariance()) && vh::same_bits(w0, prev.weight());
+        o.s("call"); outGM(o, pred); o.s(same ? "in-same" : "in-modified");
+    }
+    t.done();
+    return o.str();
+}
+
+// One KFCorrection over a time-varying model; the likelihood is queried nlik times after each call:
+//   kfcv n m ncalls { H R y nlik k means covs outw }*
+static std::string kfcv(Toks& t) {
+    long n = t.nat(), m = t.nat();
+    VMeas* vm = new VMeas; vm->H_ = MatrixXd::Zero(m, n); vm->R_ = MatrixXd::Identity(m, m); vm->y_ = VectorXd::Zero(m);
+    std::unique_ptr<LinearMeasurementModel> vmp(vm);
+    KFCorrection c(std::move(vmp));
+    long calls = t.nat();
+    Out o; o.s("ok");
+    { bool v; VectorXd l; std::tie(v, l) = c.getLikelihood(); o.s(v ? "prelik" : "noprelik"); }
+    for (long cc = 0; cc < calls; ++cc) {
+        vm->H_ = t.mat(m, n); vm->R_ = t.mat(m, m); vm->y_ = t.vec(m);
+        long nlik = t.nat(), k = t.nat();
+        GaussianMixture pred(k, n), corr(k, n);
+        fillGM(t, pred, n, k);
+        corr.weight() = t.vec(k);
+        corr.mean().setConstant(12345.0); corr.covariance().setConstant(-54321.0);
+        MatrixXd m0 = pred.mean(), c0 = pred.covariance(), w0 = pred.weight();
+        c.freeze_measurements();
+        c.correct(pred, corr);
+        bool same = vh::same_bits(m0, pred.mean()) && vh::same_bits(c0, pred.covariance()) && vh::same_bits(w0, pred.weight());
+        o.s("call"); outGM(o, corr); o.s(same ? "in-same" : "in-modified");
+        // every query must report the same, correct likelihood: the last one is printed in the
+        // single-call format, "liksame"/"likdiffer" says whether all queries agreed bit-for-bit
+        bool valid = false; VectorXd lik, first; bool agree = true;
+        for (long q = 0; q < nlik; ++q) {
+            std::tie(valid, lik) = c.getLikelihood();
+            if (q == 0) first = lik; else if (!valid || lik.size() != first.size() || !vh::same_bits(lik, first)) agree = false;
+        }
+        o.s(valid ? "lik" : "nolik"); if (valid) { o.n(lik.size()); o.m(lik); }
+        o.s(agree ? "liksame" : "likdiffer");
+    }
+    t.done();
+    return o.str();
+}
+
 int main() {
     return vh::run([](const std::string& op, Toks& t, std::string& out) {
         if (op == "kfp") { out = kfp(t); return true; }
         if (op == "kfc") { out = kfc(t); return true; }
         if (op == "kfps") { out = kfps(t); return true; }
         if (op == "kfcs") { out = kfcs(t); return true; }
+        if (op == "kfpv") { out = kfpv(t); return true; }
+        if (op == "kfcv") { out = kfcv(t); return true; }
         return false;
     });
 }
